@@ -1428,6 +1428,14 @@ def np_append(E, args, node):
             return E.new_arr(z3.simplify(n + 1), ty,
                              lambda i: E.ite(i == n, e1, xops.to_x(src(a.off + i * a.stride))))
         return E.new_arr(z3.simplify(n + 1), ty, lambda i: E.ite(i == n, e1, src(a.off + i * a.stride)))
+    if isinstance(a, Arr) and isinstance(b, Arr) and a.ndim == 1 and b.ndim == 1 and a.ty == b.ty \
+            and getattr(a, 'lead', None) is None and getattr(b, 'lead', None) is None:
+        # two 1-D arrays of the same element type: concatenation
+        sa, sb = E.st.heap[a.ident], E.st.heap[b.ident]
+        na = a.n if not isinstance(a.n, int) else z3.IntVal(a.n)
+        nb = b.n if not isinstance(b.n, int) else z3.IntVal(b.n)
+        return E.new_arr(z3.simplify(na + nb), a.ty,
+                         lambda i: E.ite(i < na, sa(a.off + i * a.stride), sb(b.off + (i - na) * b.stride)))
     raise Unsupported('np.append variant')
 
 
@@ -1826,6 +1834,24 @@ def np_arange(E, args, node):
         lo, hi, st = p[0], p[1], p[2]
     vals = [lift(v) for v in (lo, hi, st)]
     if not all(v.ty in (INT, BOOL) for v in vals):
+        # np.arange(0, k / d, 1 / d) with the same positive d: the sample grid i / d, i < k, over the reals (the float
+        # grid can have one element more or fewer and its entries are rounded: real-arithmetic idealisation, see DESIGN 7)
+        lo_r, hi_r, st_r = [z3.simplify(to_real(v)) for v in vals]
+        if z3.is_rational_value(lo_r) and lo_r.as_fraction() == 0 and z3.is_div(hi_r) and z3.is_div(st_r) \
+                and hi_r.arg(1).eq(st_r.arg(1)) and z3.is_rational_value(st_r.arg(0)) and st_r.arg(0).as_fraction() == 1 \
+                and E.decide(st_r.arg(1) > 0) is True:
+            k_, d_ = hi_r.arg(0), hi_r.arg(1)
+            if z3.is_to_real(k_):
+                k_int = k_.arg(0)
+            elif z3.is_rational_value(k_) and k_.as_fraction().denominator == 1:
+                k_int = z3.IntVal(int(k_.as_fraction()))
+            else:
+                raise Unsupported('float arange with a non-integral extent')
+            n = z3.simplify(z3.If(k_int > 0, k_int, z3.IntVal(0)))
+            r = E.new_arr(n, REAL, lambda i, d_=d_: Z(z3.ToReal(i) / d_, REAL))
+            r.meta = {'sample_grid': d_}
+            E.stats.setdefault('definitions', []).append('%s: np.arange(0, k/d, 1/d) taken as the exact grid i/d (real arithmetic)' % E.fn_short)
+            return r
         raise Unsupported('float arange')
     lo_t, hi_t, st_t = [to_int(v) for v in vals]
     if not E.spec_mode:
@@ -1898,4 +1924,51 @@ def np_interp(E, args, node):
     E.st.ghost['interp'].append(dict(out=out, x=x, xp=xp, fp=fp, seg=seg, m=m, n=n, sch=sch))
     E.st.ghost.setdefault('facts', {})['interp#%d' % (cnt + 1)] = ax
     E.stats.setdefault('definitions', [])
+    return out
+
+
+@libfn('neurodsp.plts.plot_time_series', 'neurodsp.plts.time_series.plot_time_series')
+def nd_plot_time_series(E, args, node):
+    """external drawing routine: nothing is assumed about it; the call and its arguments are logged (ghost state), so that
+    contracts can state WHAT is handed to it (call_arg)"""
+    bound = {'times': args.get(0, 'times'), 'sigs': args.get(1, 'sigs')}
+    for k, v in args.kw.items():
+        bound[k] = v
+    for d in args.star_kw:
+        if isinstance(d, SDict):
+            for k, (pres, v) in d.items.items():
+                if pres is True:
+                    bound[k] = v
+    E.st.calls.append(('neurodsp.plts.plot_time_series', bound, None))
+    if bound.get('ls') == '':
+        # a call without a line style draws markers only: logged a second time under a name of its own, so that a contract
+        # can speak about "the marker call" whatever else is drawn before or after it
+        E.st.calls.append(('neurodsp.plts.plot_time_series:markers', bound, None))
+    return None
+
+
+@libfn('numpy.unique')
+def np_unique(E, args, node):
+    """ASSUMED contract of np.unique(a) for a 1-D integer / real array: the result is strictly increasing, each of its
+    entries occurs in a, and each entry of a occurs in it (two witness functions)"""
+    a = args.pos[0]
+    if not isinstance(a, Arr) or a.ndim != 1 or a.ty not in (INT, REAL) or args.kw or len(args.pos) != 1:
+        raise Unsupported('np.unique of %r' % (a,))
+    n = a.n if not isinstance(a.n, int) else z3.IntVal(a.n)
+    m = z3.Int(fresh_name('uniq.len'))
+    out = E.new_arr(m, a.ty, base='uniq')
+    src = z3.Function(fresh_name('uniq.src'), z3.IntSort(), z3.IntSort())      # where out[j] comes from
+    pos = z3.Function(fresh_name('uniq.pos'), z3.IntSort(), z3.IntSort())      # where a[i] went
+    i, j = z3.Int(fresh_name('i')), z3.Int(fresh_name('j'))
+    A = lambda x: E.rd(a, x).t
+    O = lambda x: E.rd(out, x).t
+    ax = [z3.And(m >= 0, m <= n, z3.Implies(n > 0, m >= 1)),
+          z3.ForAll([j], z3.Implies(z3.And(j >= 0, j < m - 1), O(j) < O(j + 1))),
+          z3.ForAll([j], z3.Implies(z3.And(j >= 0, j < m), z3.And(src(j) >= 0, src(j) < n, A(src(j)) == O(j)))),
+          z3.ForAll([i], z3.Implies(z3.And(i >= 0, i < n), z3.And(pos(i) >= 0, pos(i) < m, O(pos(i)) == A(i))))]
+    for f in ax:
+        E.assumptions_quant(f)
+    cnt = len(E.st.ghost.setdefault('unique', []))
+    E.st.ghost['unique'].append(dict(out=out, a=a, src=src, pos=pos, m=m))
+    E.st.ghost.setdefault('facts', {})['unique#%d' % (cnt + 1)] = ax
     return out
